@@ -208,7 +208,7 @@ def violations(fmt, n):
             if kind in ("int", "optint", "float", "floatexp"):
                 isint = kind in ("int", "optint")
                 suffix = ""
-                chars = ["x", "P", " ", ","] + (["."] if isint else ["-", "e"])
+                chars = ["x", "P", " ", ";"] + (["."] if isint else (["-", "e"] if kind == "float" else ["e"]))
                 for ch in chars:
                     cc = _char_class(ch, kind) + suffix
                     if ch == "e":
@@ -226,6 +226,14 @@ def violations(fmt, n):
                     if ch != "-" and not (kind == "optint" and ch == "."):
                         add("nonnumeric|%s|%s|only" % (c["attr"], ch), "nonnumeric", cc, put(ci, lambda v, ch=ch: ch))
                 add("nonnumeric|%s|word|only" % c["attr"], "nonnumeric", "letter" + suffix, put(ci, lambda v: "ABC"))
+                # values made of legal characters only that are not numbers
+                add("nonnumeric|%s|-|lone-sign" % c["attr"], "nonnumeric", "lone-sign", put(ci, lambda v: "-"))
+                add("nonnumeric|%s|+|lone-sign" % c["attr"], "nonnumeric", "lone-sign", put(ci, lambda v: "+"))
+                add("nonnumeric|%s|-|sign-inside" % c["attr"], "nonnumeric", "sign-inside", put(ci, lambda v: "1-2"))
+                if not isint:
+                    add("nonnumeric|%s|-|exponent-lone-sign" % c["attr"], "nonnumeric", "lone-sign", put(ci, lambda v: "2e-"))
+                    add("nonnumeric|%s|.|lone-dot" % c["attr"], "nonnumeric", "lone-decimal-point", put(ci, lambda v: "."))
+                    add("nonnumeric|%s|.|two-dots" % c["attr"], "nonnumeric", "two-decimal-points", put(ci, lambda v: "1.2.3"))
                 if kind != "optint":
                     add("nonnumeric|%s||only" % c["attr"], "nonnumeric", "empty" + suffix, put(ci, lambda v: ""))
             elif kind == "strand":
@@ -407,7 +415,9 @@ class FileUnderTest:
             col.case({"k": "line", **case}, contract="line-number")
             if out[1] != self.expected:
                 delta = out[1] - self.expected if isinstance(out[1], int) else "nan"
-                first = mode == "read" or out[2] == 0
+                # read_chunks() parses one chunk ahead of the one it hands out, so "no chunk delivered yet" does not
+                # mean "first chunk"; the whole-file read (evaluated first) is the reference for a chunk-local error
+                first = mode == "read"
                 if first:
                     self.local_deltas.add(delta)
                 if not v["diagnosed"]:
@@ -415,11 +425,11 @@ class FileUnderTest:
                 elif self.mixed_exp and (first or delta in self.local_deltas):
                     sig = "nonnumeric:float-column-mixing-exponent-and-plain-values:wrong-line-number:%s:within-chunk" % fam
                 elif first or delta in self.local_deltas:
-                    # wrong although no earlier chunk contributes (or: wrong by the same amount as in that situation)
+                    # wrong in the whole-file read where no chunk offset exists (or: wrong by the same amount as there)
                     sig = "%s:wrong-line-number:%s:within-chunk" % (ident, fam)
                 else:
                     sig = "%s:wrong-line-number:%s:chunk-offset:%s" % (ident, fam, "lazy" if lazy else "eager")
-                col.fail(sig, case, "FormatException.line_number = %r, offending line is %r (records delivered in earlier chunks: "
+                col.fail(sig, case, "FormatException.line_number = %r, offending line is %r (records handed out before the error: "
                                     "%d); data %r" % (out[1], self.expected, out[2], self.data))
             if self.fe_seen is None:
                 self.fe_seen = case
@@ -510,7 +520,7 @@ def run(tier="quick", seed=0):
                   "chunk_sizes_A": "boundaries+-1, record lengths, 1, 2, len-1..len+1" if quick else "1..len+2",
                   "chunk_sizes_A2": "boundaries+-1, record lengths, 1, 2, len-1..len+1",
                   "chunk_sizes_B": "1, first two records + 1, len+1", "lazy": [False, True], "gzip": [False, True],
-                  "bad_characters": {"int": "x P ' ' , . ABC ''", "float": "x P ' ' , - ABC '' and exponent forms 1e e1 twenty 1ex", "strand": "x K 1 ' ' *",
+                  "bad_characters": {"int": "x P ' ' ; . ABC '' - + 1-2", "float": "x P ' ' ; - ABC '' - + 1-2 . 1.2.3 2e- and exponent forms 1e e1 twenty 1ex", "strand": "x K 1 ' ' *",
                                      "dna": "x N 1 ' ' -"}, "placements": ["first", "last", "only"]}
     prev_disable = logging.root.manager.disable
     logging.disable(logging.CRITICAL)
